@@ -1,7 +1,7 @@
 package main
 
 // C01: GoLite targets (docs/GOLITE_NOTES.md). Theorems: coq/props/C01_Generated.v (single functions),
-// coq/props/C01_VerifyE2E.v and C01_VerifyE2E_C02.v (the entry point verifier.Verify end to end);
+// coq/props/C01_VerifyE2E.v, C01_VerifyE2E_C02.v, C01_VerifyE2E_Blob.v (verifier.Verify / VerifyBlob end to end);
 // tables in docs/audit/C01.md sections "GoLite" and "End-to-end (verifier.Verify)".
 func init() {
 	const v = ".../verifier"
@@ -49,17 +49,16 @@ func init() {
 		{Pkg: v, Func: "(*verifier).processSignature", Oracle: true, OutParams: []string{"outcome"}},
 		{Pkg: "encoding/json", Func: "Unmarshal", Oracle: true, OutParams: []string{"v"}},
 		{Pkg: v, Func: "(*verifier).Verify"},
-		// verifier.VerifyBlob: with the two blob selections and SignatureAlgorithm.Hash as oracles the only thing left
-		// outside the subset is `errMsg := fmt.Sprintf(..)` bound to a local that flows into errors.New(errMsg) and a
-		// logging call (verifier/verifier.go:321): "fmt.Sprintf is only supported where its result becomes an error
-		// message"; the whitelist entry wins over an Oracle row for fmt.Sprintf, so no table work-around. REFUSED.
+		// verifier.VerifyBlob, end to end (coq/props/C01_VerifyE2E_Blob.v): the two blob selections and
+		// SignatureAlgorithm.Hash are oracles; the table `algorithms` is a translated package-level variable; the
+		// message local `errMsg := fmt.Sprintf(..)` (verifier.go:321) holds the format string.
 		{Pkg: tp, Func: "(*BlobDocument).GetGlobalTrustPolicy", Oracle: true},
 		{Pkg: tp, Func: "(*BlobDocument).GetApplicableTrustPolicy", Oracle: true},
 		{Pkg: sig, Func: "Algorithm.Hash", Oracle: true},
+		{Pkg: v, Func: "(*verifier).VerifyBlob"},
 		// Refused, kept as documentation of what is outside the subset:
 		// notation.VerifyBlob / getDescriptorFunc: depend on addUserMetadataToDescriptor; notation.Verify is C10's
 		// (targets_c10.go)
-		{Pkg: v, Func: "(*verifier).VerifyBlob"},
 		{Pkg: "...", Func: "VerifyBlob"},
 		{Pkg: "...", Func: "getDescriptorFunc"},
 		{Pkg: "...", Func: "Verify"},
